@@ -120,6 +120,9 @@ for name in sorted(os.listdir(sd)):
         co=f'{sd}/{name}/check_output.txt'
         if os.path.exists(co):
             viol=[os.path.basename(l.split('replay=')[1].split()[0]).replace('.json','') for l in open(co) if l.startswith('VIOLATION')]
+    if m.get('neutralised_by_fix'):
+        out.append(f"| {name} | {m['property']} | n/a — no longer breaks the property | {m['neutralised_by_fix'][:200]} |")
+        continue
     out.append(f"| {name} | {m['property']} | {'yes' if m.get('detected') else 'NO'} | {', '.join(viol[:4])} |")
 out.append('\n'+note('10_strengthened.md'))
 out.append('---------------------------------------------------------------------------------------\n')
